@@ -444,8 +444,8 @@ def small_job(ck, prog, natbin, rn, quick):
             ck.report("%s:%s" % (rn, why[:40]), why, {"property": "C16", "crate": "hderive", "request": "(di T1 \"struct Foo<T: Clone = u8> { f: u8 }\")", "symbolic": rep(g)[:600]})
 
 
-def main():
-    ck = Check("C16")
+def prepare(ck):
+    """configure `ck` and return the list of jobs of this property's exploration"""
     ck.crate = "hderive"
     quick = ck.tier == "quick"
     NF = 2 if quick else 3
@@ -458,7 +458,12 @@ def main():
     ck.programs.add("hderive::D4")
     jobs = [lambda sub: d4_job(sub, prog, natbin, 1, 1, quick), lambda sub: d4_job(sub, prog, natbin, NF, 0, quick),
             lambda sub: small_job(sub, prog, natbin, "T1", quick)]
-    ck.run_jobs(jobs)
+    return jobs
+
+
+def main():
+    ck = Check("C16")
+    ck.run_jobs(prepare(ck))
     ck.require_reached(["struct:ok", "enum:ok", "union:err", "struct:err", "enum:err", "T1"])
     ck.finish()
 
